@@ -668,6 +668,7 @@ func (s *Scorch) prepareSegment(newSegment segment.Segment, ids []string,
 
 	introStartTime := time.Now()
 
+	verifPoint("batch.beforeIntroduce")
 	s.introductions <- introduction
 
 	// block until this segment is applied
@@ -676,10 +677,12 @@ func (s *Scorch) prepareSegment(newSegment segment.Segment, ids []string,
 		return err
 	}
 
+	verifPoint("batch.afterApplied")
 	if introduction.persisted != nil {
 		err = <-introduction.persisted
 	}
 
+	verifPoint("batch.afterPersisted")
 	introTime := uint64(time.Since(introStartTime))
 	atomic.AddUint64(&s.stats.TotBatchIntroTime, introTime)
 	if atomic.LoadUint64(&s.stats.MaxBatchIntroTime) < introTime {
